@@ -52,6 +52,8 @@ enum Reason {
     LocalAdminShutdown,
     /// the peer sends a malformed UPDATE: the daemon answers with a NOTIFICATION (non-Cease)
     LocalUpdateError,
+    /// the operator's hard reset: ResetPeer(soft = false) through the real gRPC handler
+    LocalHardReset,
 }
 
 #[derive(Clone, Debug, PartialEq)]
@@ -365,6 +367,14 @@ impl Model for LiveModel {
                             }
                             conn.wait_end(false).await;
                         }
+                        Reason::LocalHardReset => {
+                            use api::go_bgp_service_server::GoBgpService;
+                            let svc = super::super::grpc::GrpcService::new(Arc::new(tokio::sync::Notify::new()), d.active_tx.clone(), d.global.clone(), d.tables.clone());
+                            if svc.reset_peer(tonic::Request::new(api::ResetPeerRequest { address: peer_ip().to_string(), soft: false, ..Default::default() })).await.is_err() {
+                                machinery("C10: ResetPeer failed".into());
+                            }
+                            conn.wait_end(false).await;
+                        }
                         Reason::LocalUpdateError => {
                             // UPDATE whose withdrawn-routes length runs past the message
                             let mut b = vec![0xffu8; 16];
@@ -564,6 +574,7 @@ impl Model for LiveModel {
                 Reason::NotifCease => Some(*nbit),
                 Reason::NotifHardReset => Some(false),
                 Reason::LocalAdminShutdown => Some(false),
+                Reason::LocalHardReset => Some(false),
                 Reason::LocalUpdateError => Some(false),
                 // a received non-Cease NOTIFICATION with the N-bit: RFC 8538 retains, the
                 // statement's wording is ambiguous -> both accepted; without N-bit never.
@@ -694,7 +705,7 @@ fn live_models(thorough: bool) -> Vec<LiveModel> {
         ops.push(Op::Enable);
         LiveModel { name: name.into(), local_gr, local_nbit, local_llgr, addpath, ops }
     };
-    let all_reasons = vec![Reason::TcpClose, Reason::NotifCease, Reason::NotifHardReset, Reason::NotifUpdateErr, Reason::LocalAdminShutdown, Reason::LocalUpdateError];
+    let all_reasons = vec![Reason::TcpClose, Reason::NotifCease, Reason::NotifHardReset, Reason::NotifUpdateErr, Reason::LocalAdminShutdown, Reason::LocalUpdateError, Reason::LocalHardReset];
     let mut v = vec![
         // GR only, one family negotiated, no N-bit
         mk(
